@@ -17,6 +17,8 @@ CFG = {
         'bitword.FromStrs/batch': 'bitword.BitWord[n].FromStrs (batch in compact form)',
         'bitword.ToStrs/batch': 'bitword.BitWord[n].ToStrs (batch in compact form)',
         'bitword.ToStrs/flat': '[bitword.BitWord[n].ToStrs(windows of one flat buffer), the buffer afterwards]',
+        'bitword.FirstDiff/alias': '[FirstDiff(a, a[:k], from, end), FirstDiff(a[:k], a, from, end)] with a[:k] in the same memory as a',
+        'bitword.Session/reuse': 'ToStr out of one buffer the caller re-fills, ToStrs out of buffers the caller clears; strings rendered at the end',
         'bitword.Get/any': 'bitword.BitWord[n].Get',
         'bitword.FirstDiff/any': 'bitword.BitWord[n].FirstDiff',
         'bitword.ToStr/any': 'bitword.BitWord[n].ToStr'},
@@ -38,7 +40,9 @@ CFG = {
          'mixed longer strings - then FromStr / Get at every index / ToStr(FromStr) of strings containing those bytes); FromStrs/ToStrs '
          'batches of 4097..5000 elements in compact form (alphabet + run lengths; sizes not divisible by 3, 16, 33, 97; among the slowest '
          'cases, so re-run under GOMAXPROCS 3/33/97); ToStrs over adjacent / overlapping / prefix-then-whole windows of ONE flat buffer '
-         '(result and the buffer afterwards), exhaustive over the split points of a 2*(8/n)+1-word buffer.  Only with VERIF_C08_WIDE=1 (behaviour OUTSIDE the statement, proved for the model as C08_Get_any / '
+         '(result and the buffer afterwards), exhaustive over the split points of a 2*(8/n)+1-word buffer.  + aliasing: FirstDiff/alias (b = a[:k] sharing the memory of a, every k in 0..len, both argument orders, end in {-1, beyond a, '
+         'words(a), words(b), words(b)+1, inside}); Session/reuse (ToStr out of ONE word buffer that the caller overwrites after every '
+         'call, ToStrs out of buffers cleared afterwards, the returned strings rendered only at the end; 4 widths).  Only with VERIF_C08_WIDE=1 (behaviour OUTSIDE the statement, proved for the model as C08_Get_any / '
          'C08_FirstDiff_any / C08_ToStr_any and confirmed on the real code with that flag, but not part of the default run so that a '
          'rewrite that keeps the in-domain behaviour stays silent): Get at every index from below 0 to beyond the end, FirstDiff '
          'with negative from and end < -1, ToStr on arbitrary bytes. A case is non-trivial when its string/word list is non-empty (FirstDiff: '
